@@ -105,6 +105,7 @@ def gen(repo):
         "to_copy = min(data.len() - offset, length)": "letto_copy=(data.len()-offset).min(length);" in ra,
         "copy data[offset..offset+to_copy]": "result.extend_from_slice(&data[offset..offset+to_copy]);" in ra,
         "offset = 0; length -= to_copy; i += 1": "offset=0;length-=to_copy;i+=1;" in ra,
+        "result buffer is not pre-allocated with the requested length": "with_capacity(length)" not in ra,
     }
     bad = [k for k, v in facts.items() if not v]
     if bad:
